@@ -33,6 +33,7 @@ pub fn def() -> CheckDef {
         assumptions: &["imgwr emits strictly spec-valid files (checked by imgck on every case); root creation time 0 and V3 size high bits 0 as the specification demands"],
         cpu_limit_s: 120,
         fault_kinds: "initial disk image written by a foreign implementation (layout plan drawn per case)",
+        count_subruns: false,
     }
 }
 
